@@ -28,7 +28,7 @@ ASSUMPTIONS = [
     'references are judged through resolveName, Class.baseobjects and the href of rendered links',
 ]
 FLOOR = {'quick': 1000, 'thorough': 5000}
-SPACE = {'quick': '4 kinds x 2 re-exporters x 3 forms x 3 origin variants x 6 consumers x 2 docformats x 6 schedules + 48 full driver runs',
+SPACE = {'quick': '4 kinds x 2 re-exporters x 3 forms x 4 origin variants x 6 consumers x 2 docformats x 6 schedules + 48 full driver runs',
          'thorough': 'quick + all unordered pairs of consumers (4 modules, 24 schedules)'}
 
 OBJ = {
@@ -41,6 +41,8 @@ ORIGIN = {
     'plain': '',
     'all-without': '__all__ = ["other"]\nother = 1\n',
     'dupbind': 'try:\n    from ._speedups import O\nexcept ImportError:\n    pass\n',
+    # a valid import cycle: the defining module imports the package / re-exporter after its own definitions
+    'imports-back': 'import p\nfrom p import rx as _rx0\n',
 }
 CONSUMERS = ['definer', 'reexporter', 'modattr-definer', 'modattr-reexporter', 'star-definer', 'star-reexporter']
 
